@@ -135,7 +135,7 @@ func vfStartRecorder(h2 bool) (*vfRecordingServer, error) {
 	if h2 {
 		handler = h2c.NewHandler(handler, &http2.Server{})
 	}
-	lis, err := net.Listen("tcp", "127.0.0.1:0")
+	lis, err := vfListen()
 	if err != nil {
 		return nil, err
 	}
